@@ -3,25 +3,170 @@
 -/
 import MantraDex.Model.System
 import MantraDex.Proofs.NumLemmas
+import MantraDex.Proofs.Post
 
 set_option linter.unusedSimpArgs false
+set_option linter.tactic.unusedName false
 
 namespace MantraDex.C17
 open MantraDex
+
+/-! ### helpers: `getPool` after `savePool` -/
+
+theorem find_insert_self (p : PoolInfo) (l : List PoolInfo) (h : l.any (·.id == p.id) = false) :
+    (insertPoolSorted p l).find? (·.id == p.id) = some p := by
+  induction l with
+  | nil => simp [insertPoolSorted]
+  | cons x xs ih =>
+    simp only [List.any_cons, Bool.or_eq_false_iff] at h
+    unfold insertPoolSorted
+    split
+    · simp
+    · simp [h.1, ih h.2]
+
+theorem find_replace_self (p : PoolInfo) (l : List PoolInfo) (h : l.any (·.id == p.id) = true) :
+    (l.map fun q => if q.id == p.id then p else q).find? (·.id == p.id) = some p := by
+  induction l with
+  | nil => simp at h
+  | cons x xs ih =>
+    simp only [List.any_cons, Bool.or_eq_true] at h
+    rw [List.map_cons, List.find?_cons]
+    by_cases hx : (x.id == p.id) = true
+    · have hpp : (p.id == p.id) = true := by simp
+      simp only [hx, if_true, hpp]
+    · simp only [Bool.not_eq_true] at hx
+      simp only [hx, Bool.false_eq_true, false_or] at h
+      simp only [hx, Bool.false_eq_true, if_false]
+      exact ih h
+
+theorem find_insert_ne (p : PoolInfo) (l : List PoolInfo) (qid : String) (h : qid ≠ p.id) :
+    (insertPoolSorted p l).find? (·.id == qid) = l.find? (·.id == qid) := by
+  have hp : (p.id == qid) = false := by simp [Ne.symm h]
+  induction l with
+  | nil => simp [insertPoolSorted, hp]
+  | cons x xs ih =>
+    unfold insertPoolSorted
+    split
+    · simp [hp]
+    · simp [List.find?_cons, ih]
+
+theorem find_replace_ne (p : PoolInfo) (l : List PoolInfo) (qid : String) (h : qid ≠ p.id) :
+    (l.map fun q => if q.id == p.id then p else q).find? (·.id == qid) = l.find? (·.id == qid) := by
+  have hp : (p.id == qid) = false := by simp [Ne.symm h]
+  induction l with
+  | nil => rfl
+  | cons x xs ih =>
+    rw [List.map_cons, List.find?_cons, List.find?_cons]
+    by_cases hx : (x.id == p.id) = true
+    · have hx' : x.id = p.id := by simpa using hx
+      have hxq : (x.id == qid) = false := by rw [hx']; exact hp
+      simp only [hx, if_true, hp, hxq]
+      exact ih
+    · simp only [Bool.not_eq_true] at hx
+      simp only [hx, Bool.false_eq_true, if_false]
+      rw [ih]
+
+theorem getPool_savePool_self (s : PmState) (p : PoolInfo) : (s.savePool p).getPool p.id = .ok p := by
+  unfold PmState.savePool PmState.getPool
+  by_cases h : (s.pools.any (·.id == p.id)) = true
+  · rw [if_pos h]
+    simp only [find_replace_self p s.pools h]
+  · rw [if_neg h]
+    simp only [Bool.not_eq_true] at h
+    simp only [find_insert_self p s.pools h]
+
+theorem getPool_savePool_ne (s : PmState) (p : PoolInfo) (qid : String) (h : qid ≠ p.id) :
+    (s.savePool p).getPool qid = s.getPool qid := by
+  unfold PmState.savePool PmState.getPool
+  by_cases hc : (s.pools.any (·.id == p.id)) = true
+  · rw [if_pos hc]
+    simp only [find_replace_ne p s.pools qid h]
+  · rw [if_neg hc]
+    simp only [find_insert_ne p s.pools qid h]
+
+theorem getPool_id {s : PmState} {pid : String} {p : PoolInfo} (h : s.getPool pid = .ok p) : p.id = pid := by
+  unfold PmState.getPool at h
+  split at h
+  next q hq =>
+    cases h
+    have := List.find?_some hq
+    simpa using this
+  next => cases h
+
+theorem getPool_mem {s : PmState} {pid : String} {p : PoolInfo} (h : s.getPool pid = .ok p) : p ∈ s.pools := by
+  unfold PmState.getPool at h
+  split at h
+  next q hq => cases h; exact List.mem_of_find?_eq_some hq
+  next => cases h
+
+theorem getPool_congr {s1 s2 : PmState} (h : s1.pools = s2.pools) (pid : String) :
+    s1.getPool pid = s2.getPool pid := by
+  unfold PmState.getPool; rw [h]
+
+/-! ### helpers: stepping through `do` blocks -/
+
+theorem ok_bind {α β : Type} (a : α) (f : α → R β) : (Except.ok a >>= f) = f a := rfl
+
+theorem jp_unit_err {α : Type} {c : Prop} [Decidable c] {e : Err} {f : Unit → R α} (hc : c) :
+    (if c then (Except.error e >>= f) else f ()) = .error e := by
+  rw [if_pos hc]; rfl
+
+/-! ### the properties -/
 
 /-- a direct swap on a pool whose swaps are disabled is rejected -/
 theorem swap_disabled_direct {s : PmState} {env : PmEnv} {sender : Addr} {funds : List Coin}
     {ask : Denom} {b ms : Option Nat} {recv : Option Addr} {pid : String} {pool : PoolInfo}
     (hp : s.getPool pid = .ok pool) (hoff : pool.status.swaps = false) :
     swapHandler s env sender funds ask b ms recv pid = .error .disabled := by
-  sorry
+  unfold swapHandler
+  rw [hp, ok_bind]
+  apply jp_unit_err
+  simp [hoff]
+
+theorem performSwap_save {s s' : PmState} {offer : Coin} {ask : Denom} {pid : String}
+    {b ms : Option Nat} {r : SwapResult} (h : performSwap s offer ask pid b ms = .ok (s', r)) :
+    ∃ pool pool', s.getPool pid = .ok pool ∧ pool'.id = pool.id ∧ pool'.status = pool.status ∧
+      s' = s.savePool pool' := by
+  have : Post (fun y : PmState × SwapResult => ∃ pool pool', s.getPool pid = .ok pool ∧
+      pool'.id = pool.id ∧ pool'.status = pool.status ∧ y.1 = s.savePool pool')
+      (performSwap s offer ask pid b ms) := by
+    unfold performSwap
+    apply post_bind; intro pool hp
+    repeat' pstep
+    apply post_pure
+    refine ⟨_, _, hp, ?_, ?_, rfl⟩ <;> rfl
+  exact this.out _ h
 
 /-- `perform_swap` never changes any pool's switches -/
 theorem performSwap_status {s s' : PmState} {offer : Coin} {ask : Denom} {pid qid : String}
     {b ms : Option Nat} {r : SwapResult} {q : PoolInfo}
     (h : performSwap s offer ask pid b ms = .ok (s', r)) (hq : s.getPool qid = .ok q) :
     ∃ q', s'.getPool qid = .ok q' ∧ q'.status = q.status := by
-  sorry
+  obtain ⟨pool, pool', hp, hid, hst, rfl⟩ := performSwap_save h
+  by_cases hqp : qid = pool'.id
+  · subst hqp
+    refine ⟨pool', getPool_savePool_self _ _, ?_⟩
+    have : pool.id = pid := getPool_id hp
+    rw [hid, this] at hq
+    rw [hp] at hq
+    cases hq
+    exact hst
+  · exact ⟨q, by rw [getPool_savePool_ne _ _ _ hqp]; exact hq, rfl⟩
+
+/-- backwards: a pool visible after the swap was there before, with the same switches -/
+theorem performSwap_status_back {s s' : PmState} {offer : Coin} {ask : Denom} {pid qid : String}
+    {b ms : Option Nat} {r : SwapResult} {q' : PoolInfo}
+    (h : performSwap s offer ask pid b ms = .ok (s', r)) (hq : s'.getPool qid = .ok q') :
+    ∃ q, s.getPool qid = .ok q ∧ q.status = q'.status := by
+  obtain ⟨pool, pool', hp, hid, hst, rfl⟩ := performSwap_save h
+  by_cases hqp : qid = pool'.id
+  · subst hqp
+    rw [getPool_savePool_self] at hq
+    cases hq
+    have : pool.id = pid := getPool_id hp
+    exact ⟨pool, by rw [hid, this]; exact hp, hst.symm⟩
+  · rw [getPool_savePool_ne _ _ _ hqp] at hq
+    exact ⟨q', hq, rfl⟩
 
 /-- a routed swap that succeeds passed only through pools whose swaps are enabled: any route
     containing a disabled pool is rejected as a whole -/
@@ -29,21 +174,94 @@ theorem route_requires_enabled {ms : Option Nat} :
     ∀ (ops : List SwapOp) (s s' : PmState) (prev out : Coin) (fees fees' : List Msg),
       routeHops s ms ops prev fees = .ok (s', out, fees') →
       ∀ op ∈ ops, ∃ pool, s.getPool op.poolId = .ok pool ∧ pool.status.swaps = true := by
-  sorry
+  intro ops
+  induction ops with
+  | nil => intro s s' prev out fees fees' _ op hop; cases hop
+  | cons o ops ih =>
+    intro s s' prev out fees fees' h
+    have hP : Post (fun _ => ∀ op ∈ o :: ops, ∃ pool, s.getPool op.poolId = .ok pool ∧ pool.status.swaps = true)
+        (routeHops s ms (o :: ops) prev fees) := by
+      unfold routeHops
+      apply post_bind; intro pool hp
+      apply post_jp_unit; intro hsw
+      apply post_bind; intro x hx
+      obtain ⟨s1, r⟩ := x
+      refine ⟨fun y hy => ?_⟩
+      obtain ⟨s2, out2, fees2⟩ := y
+      have ih' := ih _ _ _ _ _ _ hy
+      intro op hop
+      rcases List.mem_cons.1 hop with rfl | hop
+      · exact ⟨pool, hp, by simpa using hsw⟩
+      · obtain ⟨p1, hp1, hs1⟩ := ih' op hop
+        obtain ⟨p0, hp0, hs0⟩ := performSwap_status_back hx hp1
+        exact ⟨p0, hp0, by rw [hs0]; exact hs1⟩
+    exact hP.out _ h
 
 /-- deposits disabled: every deposit shape (multi-asset, single-asset, locked) is rejected -/
 theorem deposit_disabled {s : PmState} {env : PmEnv} {sender : Addr} {funds : List Coin}
     {ls ss : Option Nat} {recv : Option Addr} {pid : String} {u : Option Nat} {l : Option String}
     {pool : PoolInfo} (hp : s.getPool pid = .ok pool) (hoff : pool.status.deposits = false) :
     provideLiquidity s env sender funds ls ss recv pid u l = .error .disabled := by
-  sorry
+  unfold provideLiquidity
+  rw [hp, ok_bind]
+  apply jp_unit_err
+  simp [hoff]
 
 /-- withdrawals disabled -/
 theorem withdraw_disabled {s : PmState} {env : PmEnv} {sender : Addr} {funds : List Coin}
     {pid : String} {pool : PoolInfo} (hp : s.getPool pid = .ok pool)
     (hoff : pool.status.withdrawals = false) :
     withdrawLiquidity s env sender funds pid = .error .disabled := by
-  sorry
+  unfold withdrawLiquidity
+  rw [hp, ok_bind]
+  apply jp_unit_err
+  simp [hoff]
+
+theorem provide_single_shape {s s2 : PmState} {env : PmEnv} {sender : Addr} {c : Coin}
+    {ls ss : Option Nat} {recv : Option Addr} {pid : String} {u : Option Nat} {l : Option String}
+    {r : Response}
+    (h : provideLiquidity s env sender [c] ls ss recv pid u l = .ok (s2, r)) :
+    s2.pools = s.pools ∧ ∃ ask half, r.msgs =
+      [{ msg := .wasmExec env.self (.pm (.swap ask none ss none pid)) [half], replyOn := .success,
+         id := C.SINGLE_SIDE_REPLY_ID }] := by
+  have hP : Post (fun y : PmState × Response => y.1.pools = s.pools ∧ ∃ ask half, y.2.msgs =
+      [{ msg := .wasmExec env.self (.pm (.swap ask none ss none pid)) [half], replyOn := .success,
+         id := C.SINGLE_SIDE_REPLY_ID }])
+      (provideLiquidity s env sender [c] ls ss recv pid u l) := by
+    unfold provideLiquidity
+    apply post_bind; intro pool hp
+    apply post_jp_unit; intro _; dsimp -zeta only
+    pstep
+    apply post_bind; intro deps hd
+    have : deps = [c] := by
+      have : aggregateCoins [c] = .ok [c] := rfl
+      rw [this] at hd; cases hd; rfl
+    subst this
+    apply post_jp_unit; intro _; dsimp -zeta only
+    apply post_jp_unit; intro _; dsimp -zeta only
+    pstep
+    apply post_ite
+    · intro _
+      repeat' pstep
+      apply post_pure
+      exact ⟨rfl, _, _, rfl⟩
+    · intro hne; exact absurd rfl hne
+  exact hP.out _ h
+
+theorem execMsg_wasm_ok {fuel : Nat} {w w' : World} {sender c : Addr} {msg : ContractMsg}
+    {funds : List Coin} (h : execMsg (fuel + 1) w sender (.wasmExec c msg funds) = .ok w') :
+    ∃ w1 w2 resp, w1.pm = w.pm ∧ callExecute w1 c sender funds msg = .ok (w2, resp) ∧
+      execSubs fuel w2 c resp.msgs = .ok w' := by
+  simp only [execMsg] at h
+  split at h
+  · cases h
+  · split at h
+    · simp only [bind_ok, pure_ok] at h
+      obtain ⟨w1, rfl, ⟨w2, resp⟩, hc, hs⟩ := h
+      refine ⟨_, w2, resp, ?_, hc, hs⟩; rfl
+    · simp only [bind_ok, pure_ok] at h
+      obtain ⟨b, _, w1, rfl, ⟨w2, resp⟩, hc, hs⟩ := h
+      refine ⟨_, w2, resp, ?_, hc, hs⟩; rfl
 
 /-- a single-asset deposit swaps internally: with swaps disabled on the pool the whole transaction
     is rejected (the inner swap is a reply-on-success sub-message, its failure aborts everything) -/
@@ -52,7 +270,58 @@ theorem single_asset_blocked_by_swap_switch {w : World} {sender : Addr} {c : Coi
     {pool : PoolInfo} {k : Option Nat}
     (hp : w.pm.getPool pid = .ok pool) (hoff : pool.status.swaps = false) :
     ∃ e, runTx w (.exec sender PM (.pm (.provideLiquidity ls ss recv pid u l)) [c]) k = .error e := by
-  sorry
+  cases hres : runTx w (.exec sender PM (.pm (.provideLiquidity ls ss recv pid u l)) [c]) k with
+  | error e => exact ⟨e, rfl⟩
+  | ok w' =>
+    exfalso
+    unfold runTx at hres
+    have hF : FUEL = 62 + 1 + 1 := rfl
+    simp only [hF] at hres
+    obtain ⟨w1, w2, resp, hpm, hc, hs⟩ := execMsg_wasm_ok hres
+    -- the handler ran in the single-asset branch
+    simp only [callExecute, bne_self_eq_false, Bool.false_eq_true, if_false, bind_ok, pure_ok,
+      pmExecute] at hc
+    obtain ⟨⟨s2, r2⟩, hprov, heq⟩ := hc
+    cases heq
+    obtain ⟨hpools, ask, half, hmsgs⟩ := provide_single_shape hprov
+    have hpm' : w1.pm = w.pm := hpm
+    have hp2 : s2.getPool pid = .ok pool := by
+      rw [getPool_congr hpools, hpm']; exact hp
+    simp only [hmsgs] at hs
+    rw [execSubs] at hs
+    -- the inner swap fails
+    cases hin : execMsg 62 { w1 with pm := s2 } PM
+        (.wasmExec w1.pmEnv.self (.pm (.swap ask none ss none pid)) [half]) with
+    | ok w3 =>
+      have h61 : (62 : Nat) = 61 + 1 := rfl
+      rw [h61] at hin
+      obtain ⟨w4, w5, resp', hpm4, hc4, _⟩ := execMsg_wasm_ok hin
+      have hself : w1.pmEnv.self = PM := rfl
+      rw [hself] at hc4
+      simp only [callExecute, bne_self_eq_false, Bool.false_eq_true, if_false, bind_ok, pure_ok,
+        pmExecute] at hc4
+      obtain ⟨a, hsw, _⟩ := hc4
+      have hp4 : w4.pm.getPool pid = .ok pool := by rw [hpm4]; exact hp2
+      rw [swap_disabled_direct hp4 hoff] at hsw
+      cases hsw
+    | error e =>
+      simp only [hin, ReplyOn.onError, Bool.false_eq_true, if_false] at hs
+      cases hs
+
+theorem toggle_aux {s : PmState} {pid : String} {p : PoolInfo} (st : PoolStatus) (cfg : PmConfig)
+    (hp : s.getPool pid = .ok p) :
+    (∀ qid, qid ≠ pid →
+      ({ s.savePool { p with status := st } with config := cfg } : PmState).getPool qid = s.getPool qid) ∧
+    ({ s.savePool { p with status := st } with config := cfg } : PmState).getPool pid =
+      .ok { p with status := st } := by
+  have hid : p.id = pid := getPool_id hp
+  constructor
+  · intro qid hq
+    show (PmState.savePool s _).getPool qid = _
+    exact getPool_savePool_ne _ _ _ (by show qid ≠ p.id; rw [hid]; exact hq)
+  · show (PmState.savePool s _).getPool pid = _
+    rw [← hid]
+    exact getPool_savePool_self s { p with status := st }
 
 /-- toggling touches only the named pool, and only its switches -/
 theorem toggle_only_named_pool {s s' : PmState} {env : PmEnv} {sender : Addr}
@@ -64,13 +333,35 @@ theorem toggle_only_named_pool {s s' : PmState} {env : PmEnv} {sender : Addr}
       p'.status.swaps = t.swaps.getD p.status.swaps ∧
       p'.status.deposits = t.deposits.getD p.status.deposits ∧
       p'.status.withdrawals = t.withdrawals.getD p.status.withdrawals := by
-  sorry
+  have hP : Post (fun y : PmState × Response =>
+      (∀ qid, qid ≠ t.poolId → y.1.getPool qid = s.getPool qid) ∧
+      ∃ p p', s.getPool t.poolId = .ok p ∧ y.1.getPool t.poolId = .ok p' ∧
+        p' = { p with status := p'.status } ∧
+        p'.status.swaps = t.swaps.getD p.status.swaps ∧
+        p'.status.deposits = t.deposits.getD p.status.deposits ∧
+        p'.status.withdrawals = t.withdrawals.getD p.status.withdrawals)
+      (pmUpdateConfig s env sender fc fm fee (some t)) := by
+    unfold pmUpdateConfig
+    apply post_bind; intro _ _
+    pstep
+    pjp
+    · repeat' pstep
+    pjp
+    · repeat' pstep
+    dsimp only
+    apply post_bind; intro p hp
+    refine ⟨fun y hy => ?_⟩
+    cases hy
+    obtain ⟨h1, h2⟩ := toggle_aux _ _ hp
+    refine ⟨h1, p, _, hp, h2, rfl, ?_⟩
+    cases t.swaps <;> cases t.deposits <;> cases t.withdrawals <;> exact ⟨rfl, rfl, rfl⟩
+  exact hP.out _ h
 
 /-- re-enabling restores: switching a feature off and on again gives back the original pool -/
 theorem reenable_restores (p : PoolInfo) (b : Bool) :
     ({ ({ p with status := { p.status with swaps := b } } : PoolInfo) with
         status := { ({ p.status with swaps := b } : PoolStatus) with swaps := p.status.swaps } } : PoolInfo) = p := by
-  sorry
+  rfl
 
 /-- new pools start with everything enabled -/
 theorem new_pool_all_enabled {s s' : PmState} {env : PmEnv} {funds : List Coin} {denoms : List Denom}
@@ -78,6 +369,18 @@ theorem new_pool_all_enabled {s s' : PmState} {env : PmEnv} {funds : List Coin} 
     (h : createPool s env funds denoms decimals fees pt id = .ok (s', r)) :
     ∃ p, p ∈ s'.pools ∧ ¬ (∃ q ∈ s.pools, q.id = p.id) ∧
       p.status.swaps = true ∧ p.status.deposits = true ∧ p.status.withdrawals = true := by
-  sorry
+  have hP : Post (fun y : PmState × Response => ∃ p, p ∈ y.1.pools ∧ ¬ (∃ q ∈ s.pools, q.id = p.id) ∧
+      p.status.swaps = true ∧ p.status.deposits = true ∧ p.status.withdrawals = true)
+      (createPool s env funds denoms decimals fees pt id) := by
+    unfold createPool
+    repeat' pstep
+    all_goals
+      apply post_pure
+      refine ⟨_, getPool_mem (getPool_savePool_self _ _), ?_, rfl, rfl, rfl⟩
+      rintro ⟨q, hq, hid⟩
+      have : (s.pools.any fun x => x.id == _) = true :=
+        List.any_eq_true.2 ⟨q, hq, beq_iff_eq.2 hid⟩
+      contradiction
+  exact hP.out _ h
 
 end MantraDex.C17
